@@ -2,6 +2,12 @@
 
 package rosmar
 
+import (
+	"context"
+
+	sgbucket "github.com/couchbase/sg-bucket"
+)
+
 // C10 (scoped): atomicity and acknowledge-after-commit of rosmar's own code on
 // an on-disk bucket, under a transactional stub with symbolic faults.
 func Harness_C10_addRaw()          { stepAdd(pC10, true) }
@@ -11,3 +17,72 @@ func Harness_C10_remove()          { stepRemove(pC10, true) }
 func Harness_C10_touch()           { stepTouch(pC10) }
 func Harness_C10_incr()            { stepIncr(pC10) }
 func Harness_C10_updateXattrs()    { stepXattr(pC10, xUpdateXattrs) }
+
+// C10, design documents: creating, replacing and deleting a design document (design-doc row,
+// its views, the cascade over their index rows) is one transaction: success = exactly one
+// commit holding everything, error = nothing committed, nothing changed.
+func stepDDocAtomic(kind int) {
+	env := verifWorld(false, 2, 1)
+	verifCutEvents()
+	c := env.colls[0]
+	ctx := context.Background()
+	verifMapSource(verifMapA)
+	ddA := &sgbucket.DesignDoc{Views: sgbucket.ViewMap{"v": sgbucket.ViewDef{Map: verifMapA}}}
+	ddB := &sgbucket.DesignDoc{Views: sgbucket.ViewMap{"v": sgbucket.ViewDef{Map: verifMapB}}}
+	if kind != 0 {
+		verifAssume(c.PutDDoc(ctx, "dd", ddA) == nil)
+		if kind == 3 {
+			// with a built index, so that the replacement has rows to cascade over
+			_, err := c.View(ctx, "dd", "v", nil)
+			verifAssume(err == nil)
+		}
+	}
+	nf := 1
+	if verifThorough() {
+		nf = 2
+	}
+	verifFaults(env.db, nf)
+	cc0 := verifCommitCount(env.db)
+	snap := verifSnapshot(env.db)
+	var err error
+	switch kind {
+	case 0:
+		err = c.PutDDoc(ctx, "dd", ddA)
+	case 1, 3:
+		err = c.PutDDoc(ctx, "dd", ddB)
+	case 2:
+		err = c.DeleteDDoc("dd")
+	}
+	if err != nil {
+		verifReach("failed")
+		verifAssert(verifSameDB(env.db, snap), "a design-document call that returns an error changes nothing")
+		if verifSymbolic() {
+			verifAssert(verifCommitCount(env.db) == cc0, "sym-only: a call that returns an error has committed nothing")
+		}
+		return
+	}
+	verifReach("applied")
+	if verifSymbolic() {
+		verifAssert(verifCommitCount(env.db) == cc0+1, "sym-only: every effect of a successful design-document call is made durable by exactly one commit")
+		verifAssert(!verifTxnOpen(env.db), "sym-only: no transaction left open")
+	}
+	verifAssert(verifSameTable(env.db, snap, "documents"), "a design-document call changes no document")
+}
+
+func Harness_C10_putDDocNew()          { stepDDocAtomic(0) }
+func Harness_C10_putDDocReplace()      { stepDDocAtomic(1) }
+func Harness_C10_deleteDDoc()          { stepDDocAtomic(2) }
+func Harness_C10_putDDocReplaceIndexed() { stepDDocAtomic(3) }
+
+// more entry points under the same fault model
+func Harness_C10_update()            { stepUpdate(pC10) }
+func Harness_C10_setWithMeta()       { stepWithMeta(pC10, false) }
+func Harness_C10_deleteWithMeta()    { stepWithMeta(pC10, true) }
+func Harness_C10_setXattrs()         { stepXattr(pC10, xSetXattrs) }
+func Harness_C10_removeXattrs()      { stepXattr(pC10, xRemoveXattrs) }
+func Harness_C10_deleteWithXattrs()  { stepXattr(pC10, xDeleteWithXattrs) }
+
+// thorough tier only (tens of thousands of paths each)
+func Harness_C10_writeTombstone_T()        { stepXattr(pC10, xWriteTombstone) }
+func Harness_C10_writeWithXattrs_T()       { stepXattr(pC10, xWriteWithXattrs) }
+func Harness_C10_deleteSubDocPaths_T()     { stepXattr(pC10, xDeleteSubDocPaths) }
